@@ -10,10 +10,10 @@ prop(
     design_ref="DESIGN.md 2/C15",
     stages=[
         dict(run="^TestPropFailover$",
-             quick=dict(checks=320, shards=16, timeout=900),
+             quick=dict(checks=320, shards=16, timeout=900, shrinktime='10s'),
              thorough=dict(checks=4800, shards=16, timeout=3600)),
         dict(run="^TestPropFailoverSeq$",
-             quick=dict(checks=256, shards=16, timeout=900),
+             quick=dict(checks=256, shards=16, timeout=900, shrinktime='10s'),
              thorough=dict(checks=6400, shards=16, timeout=3600)),
         dict(run="^TestPropChecks$",
              quick=dict(checks=440, shards=8, timeout=900),
@@ -42,7 +42,10 @@ prop(
     level_text="Quick: rapid-drawn cells of the fault table. Thorough: every cell of the table listed above is executed once (TestFaultTable: "
                "1110 mode tuples x 12 endpoint/slices/required combinations = 13320 cells), i.e. the fault assignment space of the statement is "
                "enumerated; what is sampled rather than enumerated is timing (one run per cell) and, in part 2, the rules.",
-    level_note="A refused upstream cannot log contacts (nothing listens); its contact is inferred only through the upstreams after it. A truncated 200 "
+    level_note="Sequence cases: fake upstreams answer with Connection: close, the harness waits until every upstream has no open connection before "
+               "each call, and requests the client had already dropped when the server read them (cancelled slices of a failed range query) are not "
+               "counted as contacts - otherwise a request of the previous call could be booked on the next one. "
+               "A refused upstream cannot log contacts (nothing listens); its contact is inferred only through the upstreams after it. A truncated 200 "
                "response is accepted as either unavailable (next upstream contacted) or as a final error of that upstream: the statement lists connection "
                "errors, timeouts and 5xx and does not place a connection that breaks mid-body. 404 on config/flags/metadata is pint's separate "
                "'unsupported API' feature: only no-crash is checked there (class unsupported-api:*). rule/link is online but talks to the linked URLs, not "
